@@ -3,15 +3,23 @@ import json, os, re
 import cybuild
 
 TITLE = "Comparisons and membership tests match CPython"
-EXTRACTS = ["Cmp"]
-RULE = ("three generators. (1) cascades of 1-4 comparison links whose operands are logging calls (Python "
+EXTRACTS = ["Cmp", "CmpInt"]
+RULE = ("four generators. (1) cascades of 1-4 comparison links whose operands are logging calls (Python "
         "objects, C int / C double calls, instrumented objects whose rich comparisons return objects with a "
         "logging/raising __bool__) over all ten comparison operators; (2) `in`/`not in` tests against tuple/"
         "list/set displays of 0-4 members (logging calls, names, attributes, literals, starred, unhashable) "
         "over a mixed-type value pool (1, 1.0, True, nan, str, bytes, tuples, []); (3) if/elif chains, "
         "boolean expressions and conditional expressions over C int / enum / Py_UCS4 / char subjects built "
         "from ==, !=, in/not in literal tuples and string literals, or/and, with overlapping and duplicate "
-        "labels, executed on every subject value of a small range. Distinct by (source text of the "
+        "labels, executed on every subject value of a small range; (4) pairs of Python ints for the int-int "
+        "branch of PyObjectCompare, enumerated from the branch structure of the helper: for every digit count "
+        "(0..5 and 7 quick, up to 40 thorough), both signs and three base patterns (random / 1 0..0 / all digits "
+        "maximal) every single digit position changed (+-1, to 0, to 2^30-1, random), two positions changed in "
+        "opposite directions, sign flips, every pair of different digit counts at the adjacent values "
+        "2^(30n)-1 | 2^(30n), zero, equal values held in distinct objects, one object passed twice, an all-"
+        "pairs table of boundary values (2^30, 2^60, 2^63, 2^64 +-1 ...), each pair run through all six "
+        "operators x {object result, C truth result} x operand typings {object, int}^2, plus 3-operand chains "
+        "and `in`/`not in` 2-tuples, in two builds (PyLong internals on / off). Distinct by (source text of the "
         "function, input); non-trivial = at least one comparison is executed")
 EXPLANATION = ("theorems: the temp-machine code emitted for e0 op1 e1 ... opn en equals the Python reference "
                "(value, exception and full event trace: operand evaluations, comparison calls, truth tests) for "
@@ -20,15 +28,21 @@ EXPLANATION = ("theorems: the temp-machine code emitted for e0 op1 e1 ... opn en
                "if/elif chains and boolean expressions the rewritten statement/expression executes the same "
                "branch with the same trace and its case labels are pairwise distinct (derived from "
                "has_duplicate_values). Each theorem is proved for the repaired variant and REFUTED for the code "
-               "as it is where a finding applies. partial: object comparison helpers (PyObjectCompare, "
-               "UnicodeEquals, UnicodeEqualsUCS4, dict/set/str containment) and C/Python coercions are "
-               "differential only (compiled module vs CPython); user-defined __eq__ inside flattened `in` "
+               "as it is where a finding applies. PyObjectCompare on two exact ints (__Pyx_PyObject_CompareIntInt<Op>, "
+               "__Pyx_PyLong_CompareSignAndSize, the identity shortcut): for ALL operators, ALL pairs of well-formed "
+               "CPython ints of any digit count and every configuration with cfg_ok the model of the C text returns "
+               "the comparison of the values without signed overflow (by induction on the digit index), tied to the "
+               "compiled helper on the enumerated pairs and to memory by reading lv_tag/ob_digit. partial: the other "
+               "object comparison helpers (int-float, str, bytes, UnicodeEquals, UnicodeEqualsUCS4, dict/set/str "
+               "containment) and C/Python coercions are differential only (compiled module vs CPython); user-defined __eq__ inside flattened `in` "
                "tests (operand orientation) is outside the model.")
 TRUSTED = ["CPython 3.12 executing the same (or the de-typed) source text as the property oracle",
            "leaf oracles of the model (==, is, hash, rich comparison results, truth values) are tabulated from "
            "CPython on the leaf values",
            "gcc as a conforming C compiler; a C switch with pairwise distinct labels jumps to the unique match",
-           "tree dumps taken by a pipeline hook after FlattenInListTransform / SwitchTransform (pyload sources)"]
+           "tree dumps taken by a pipeline hook after FlattenInListTransform / SwitchTransform (pyload sources)",
+           "CPython's own int comparison (long_richcompare) on the same values as the oracle of the int-int helper; "
+           "PyLong_AsLongLongAndOverflow and PyObject_RichCompare are modelled by their documented contract"]
 ASSUMPTIONS = ["flattened `in` tests compare built-in values: == is total, symmetric and reflexive on identical "
                "objects (NaN excluded: finding), comparisons have no side effects",
                "switch subjects are side-effect free C integers or evaluated once"]
@@ -1292,6 +1306,334 @@ print(json.dumps(out))
 
 
 # ------------------------------------------------------------------------------------------------
+# part 4: PyObjectCompare on two Python ints (Optimize.c __Pyx_PyObject_CompareIntInt<Op>)
+# ------------------------------------------------------------------------------------------------
+II_OPS = [("lt", "<"), ("le", "<="), ("eq", "=="), ("ne", "!="), ("gt", ">"), ("ge", ">=")]     # model order
+II_TYPINGS = [("oo", "a, b"), ("ii", "a: int, b: int"), ("io", "a: int, b"), ("oi", "a, b: int")]
+II_CHAINS = [(0, 1), (2, 3), (5, 4), (1, 2), (3, 0), (4, 5)]      # every operator as first and as second link
+II_BRANCH = {1: "sign", 2: "size", 3: "zero", 4: "one-digit", 5: "two-digit-join", 6: "digit-loop",
+             7: "longlong", 8: "overflow-flags-differ", 9: "richcompare-fallback"}
+SH = 30
+BASE = 1 << SH
+
+
+def ii_functions():
+    """[(name, kind, info)] in the order the worker reports them; kind: pair | chain | mem"""
+    fns = []
+    for oi, (on, _) in enumerate(II_OPS):
+        for tn, _ in II_TYPINGS:
+            fns.append(("o_%s_%s" % (on, tn), "pair", oi))
+            fns.append(("b_%s_%s" % (on, tn), "pair", oi))
+    for k, (o1, o2) in enumerate(II_CHAINS):
+        fns.append(("ch%d_oo" % k, "chain", (o1, o2)))
+        fns.append(("ch%d_ii" % k, "chain", (o1, o2)))
+    for tn in ("oo", "ii"):
+        fns.append(("mem_in_" + tn, "mem", False))
+        fns.append(("mem_ni_" + tn, "mem", True))
+    return fns
+
+
+def ii_source():
+    L = ["# cython: language_level=3\n"]
+    for on, sym in II_OPS:
+        for tn, sig in II_TYPINGS:
+            L.append("def o_%s_%s(%s):\n    return a %s b\n" % (on, tn, sig, sym))
+            L.append("def b_%s_%s(%s):\n    if a %s b:\n        return 1\n    return 0\n" % (on, tn, sig, sym))
+    for k, (o1, o2) in enumerate(II_CHAINS):
+        L.append("def ch%d_oo(a, b, c):\n    return a %s b %s c\n" % (k, II_OPS[o1][1], II_OPS[o2][1]))
+        L.append("def ch%d_ii(a: int, b: int, c: int):\n    return a %s b %s c\n" % (k, II_OPS[o1][1], II_OPS[o2][1]))
+    L.append("def mem_in_oo(a, b, c):\n    return a in (b, c)\n")
+    L.append("def mem_ni_oo(a, b, c):\n    return a not in (b, c)\n")
+    L.append("def mem_in_ii(a: int, b: int, c: int):\n    return a in (b, c)\n")
+    L.append("def mem_ni_ii(a: int, b: int, c: int):\n    return a not in (b, c)\n")
+    return "".join(L)
+
+
+II_WORKER = r'''
+import sys, json, ctypes
+spec = json.load(sys.stdin)
+m = __import__(spec["module"])
+pair_fns = [getattr(m, n) for n in spec["pair_fns"]]
+tri_fns = [getattr(m, n) for n in spec["tri_fns"]]
+vals = spec["values"]
+def enc(r):
+    if r is True or (type(r) is int and r == 1): return "1"
+    if r is False or (type(r) is int and r == 0): return "0"
+    return "?"
+def call(f, *a):
+    try:
+        return enc(f(*a))
+    except Exception as e:
+        return "E"
+out_pairs, out_tris, mem = [], [], []
+for ia, ib, same in spec["pairs"]:
+    a = int(vals[ia])
+    b = a if same else int(vals[ib])
+    out_pairs.append([1 if a is b else 0, "".join(call(f, a, b) for f in pair_fns)])
+for ia, ib, ic in spec["triples"]:
+    a, b, c = int(vals[ia]), int(vals[ib]), int(vals[ic])
+    out_tris.append([[1 if a is b else 0, 1 if b is c else 0, 1 if a is c else 0],
+                     "".join(call(f, a, b, c) for f in tri_fns)])
+# representation tie: lv_tag and ob_digit of each operand as CPython laid them out (3.12 layout)
+if sys.version_info[:2] >= (3, 12):
+    for s in vals:
+        v = int(s)
+        tag = ctypes.c_size_t.from_address(id(v) + 16).value
+        n = tag >> 3
+        mem.append([tag, [ctypes.c_uint32.from_address(id(v) + 24 + 4 * i).value for i in range(n)]])
+extra = []
+for fn, a, b in spec["extra"]:
+    cls = {"bool": bool, "sub": type("I", (int,), {})}
+    conv = lambda x: cls[x[0]](x[1]) if isinstance(x, list) else x
+    a, b = conv(a), conv(b)
+    import operator
+    def run1(f):
+        try:
+            return enc(f(a, b))
+        except Exception as ex:
+            return "E:" + type(ex).__name__
+    extra.append([run1(getattr(m, fn)), run1(getattr(operator, fn.split("_")[1]))])
+print(json.dumps({"pairs": out_pairs, "triples": out_tris, "mem": mem, "extra": extra}))
+'''
+
+
+def ii_val(ds, neg):
+    v = 0
+    for i, d in enumerate(ds):
+        v += d << (SH * i)
+    return -v if neg else v
+
+
+def ii_base(rng, n, kind):
+    if kind == "min":
+        return [0] * (n - 1) + [1]
+    if kind == "max":
+        return [BASE - 1] * n
+    ds = [rng.randrange(BASE) for _ in range(n)]
+    ds[-1] = rng.randrange(1, BASE)
+    return ds
+
+
+def gen_int_pairs(rng, quick):
+    """-> list of (a, b, same, family); families name the branch region the pair is aimed at"""
+    P = []
+    def add(a, b, fam, same=False, both=True):
+        P.append((a, b, same, fam))
+        if both and not same:
+            P.append((b, a, False, fam))
+    sizes = [1, 2, 3, 4, 5, 7] if quick else list(range(1, 13)) + [20, 40]
+    reps = 1 if quick else 3
+    # (1) same sign, same digit count, exactly one digit position differs: every position
+    for n in sizes:
+        for neg in (False, True):
+            for kind in ("rand", "min", "max"):
+                for _ in range(reps if kind == "rand" else 1):
+                    A = ii_base(rng, n, kind)
+                    for p in range(n):
+                        lo = 1 if p == n - 1 else 0
+                        cands = {A[p] + 1, A[p] - 1, lo, BASE - 1, rng.randrange(lo, BASE)}
+                        for d in sorted(cands):
+                            if d == A[p] or d < lo or d >= BASE:
+                                continue
+                            Bd = list(A); Bd[p] = d
+                            add(ii_val(A, neg), ii_val(Bd, neg), "onepos/n=%d/p=%s" % (n, "top" if p == n - 1 else ("low" if p == 0 else "mid")))
+    # (2) two positions differ in opposite directions: the higher one must decide
+    for n in [s for s in sizes if s >= 2]:
+        for neg in (False, True):
+            A = ii_base(rng, n, "rand")
+            A = [min(max(d, 1), BASE - 2) for d in A]
+            pq = [(p, q) for p in range(n) for q in range(p + 1, n)]
+            if len(pq) > 12:
+                pq = rng.sample(pq, 12) + [(0, n - 1), (0, 1), (n - 2, n - 1)]
+            for p, q in pq:
+                Bd = list(A); Bd[q] = A[q] - 1; Bd[p] = A[p] + 1
+                if Bd[-1] == 0:
+                    continue
+                add(ii_val(A, neg), ii_val(Bd, neg), "twopos/n=%d" % n)
+    # (3) sign: same magnitude and different magnitudes
+    for n in sizes:
+        A, Bd = ii_base(rng, n, "rand"), ii_base(rng, n, "rand")
+        add(ii_val(A, False), ii_val(A, True), "sign/n=%d" % n)
+        add(ii_val(A, False), ii_val(Bd, True), "sign/n=%d" % n)
+        add(ii_val(A, True), 0, "zero-vs/n=%d" % n)
+        add(ii_val(A, False), 0, "zero-vs/n=%d" % n)
+    # (4) different digit counts, adjacent values around each power of the base, both signs
+    szs = [0] + sizes
+    for n in szs:
+        for k in szs:
+            if n >= k:
+                continue
+            small = [BASE - 1] * n                      # largest n-digit value
+            big = [0] * (k - 1) + [1]                   # smallest k-digit value
+            for neg in (False, True):
+                add(ii_val(small, neg), ii_val(big, neg), "size/%d-vs-%d" % (n, k))
+                add(ii_val(ii_base(rng, n, "rand") if n else [], neg), ii_val(ii_base(rng, k, "rand"), neg), "size/%d-vs-%d" % (n, k))
+            add(ii_val(small, True), ii_val(big, False), "sign+size/%d-vs-%d" % (n, k))
+            add(ii_val(small, False), ii_val(big, True), "sign+size/%d-vs-%d" % (n, k))
+    # (5) equal values in distinct objects / one object twice
+    add(0, 0, "equal/n=0", both=False)
+    for n in sizes:
+        for neg in (False, True):
+            for kind in ("rand", "min", "max"):
+                v = ii_val(ii_base(rng, n, kind), neg)
+                add(v, v, "equal/n=%d" % n, both=False)
+                add(v, v, "identical/n=%d" % n, same=True)
+    # (6) boundary table, all ordered pairs
+    bnd = set()
+    for e in (0, 1, 8, 15, 29, 30, 31, 32, 59, 60, 61, 62, 63, 64, 89, 90, 91, 120):
+        for d in (-1, 0, 1):
+            bnd.add((1 << e) + d); bnd.add(-((1 << e) + d))
+    bnd |= {255, 256, 257, -5, -6, 2 ** 60 + 2 ** 35, 2 ** 61 + 2 ** 35, 2 ** 120 + 2 ** 70}
+    bnd = sorted(bnd)
+    if quick:
+        keep = [v for v in bnd if abs(v).bit_length() in (0, 1, 2, 30, 31, 60, 61, 63, 64, 65, 90, 91)]
+        for a in keep:
+            for b in rng.sample(bnd, 14):
+                add(a, b, "boundary", both=False)
+    else:
+        for a in bnd:
+            for b in bnd:
+                add(a, b, "boundary", both=False)
+    # (7) random pairs sharing a random high part
+    for _ in range(150 if quick else 6000):
+        n = rng.choice(sizes)
+        A = ii_base(rng, n, "rand")
+        Bd = list(A)
+        for i in range(rng.randrange(0, n) + 1 if rng.random() < 0.8 else 0):
+            Bd[i] = rng.randrange(1 if i == n - 1 else 0, BASE)
+        add(ii_val(A, rng.random() < 0.5), ii_val(Bd, rng.random() < 0.5), "random/n=%d" % n, both=False)
+    return P
+
+
+def gen_int_triples(rng, pairs, quick):
+    """(a, b, c): chains a op1 b op2 c and a in (b, c); c from the same family so that the second
+    link / second member goes through the same branch"""
+    T = []
+    src = [p for p in pairs if not p[2]]
+    for (a, b, _, fam) in rng.sample(src, min(len(src), 260 if quick else 4000)):
+        c = rng.choice([a, b, a + 1, b - 1, a ^ 1, b ^ (1 << SH), -a, a + (1 << (SH * 2))])
+        T.append((a, b, c, fam.split("/")[0]))
+        T.append((c, a, b, fam.split("/")[0]))
+    return T
+
+
+II_EXTRA = [["o_%s_oo" % on, a, b] for on, _ in II_OPS
+            for a, b in [(["bool", 1], 1), (1, ["bool", 1]), (["bool", 0], 2 ** 70), (["sub", 2 ** 70 + 1], 2 ** 70 + 2),
+                         (2 ** 70 + 1, ["sub", 2 ** 70 + 2]), (["sub", 5], ["sub", 5]), (2 ** 70, 1.5), (None, 1)]]
+
+
+def pyops(a, b):
+    return "".join("1" if r else "0" for r in (a < b, a <= b, a == b, a != b, a > b, a >= b))
+
+
+def check_intint(ctx, model, quick, built):
+    """built: {cfg: module name}; three-way: compiled helper / extracted model / CPython"""
+    rng = ctx.rng
+    pairs = gen_int_pairs(rng, quick)
+    triples = gen_int_triples(rng, pairs, quick)
+    fns = ii_functions()
+    pair_fns = [f for f in fns if f[1] == "pair"]
+    tri_fns = [f for f in fns if f[1] != "pair"]
+    vals, index = [], {}
+    def vi(v):
+        if v not in index:
+            index[v] = len(vals); vals.append(str(v))
+        return index[v]
+    spec = {"pair_fns": [f[0] for f in pair_fns], "tri_fns": [f[0] for f in tri_fns],
+            "pairs": [[vi(a), vi(b), 1 if same else 0] for a, b, same, _ in pairs],
+            "triples": [[vi(a), vi(b), vi(c)] for a, b, c, _ in triples], "extra": II_EXTRA}
+    spec["values"] = vals
+    src = ii_source()
+    for cfg, modname in built.items():
+        r = cybuild.run_script(II_WORKER, ctx.workdir, dict(spec, module=modname), timeout=900, name="drv_ii_%s.py" % cfg)
+        res = r["json"]
+        if res is None or len(res["pairs"]) != len(pairs) or len(res["triples"]) != len(triples):
+            ctx.corr_break("intint worker " + cfg, modname, (r["err"] or r["out"])[-1500:], "runs")
+            continue
+        # --- the model is asked with the identity the worker observed
+        q = ["row %s %d %d %d" % (cfg, res["pairs"][i][0], a, b) for i, (a, b, _, _) in enumerate(pairs)]
+        link = {}
+        for i, (a, b, c, _) in enumerate(triples):
+            sab, sbc, sac = res["triples"][i][0]
+            for key in ((a, b, sab), (b, c, sbc), (a, c, sac)):
+                if key not in link:
+                    link[key] = len(q); q.append("row %s %d %d %d" % (cfg, key[2], key[0], key[1]))
+        if cfg == "312" and res["mem"]:
+            m0 = len(q)
+            q += ["mem 312 %s" % s for s in vals]
+        mres = model.batch(q)
+        nfun = len(pair_fns) // 6
+        for i, (a, b, same, fam) in enumerate(pairs):
+            isame, got = res["pairs"][i]
+            mrow, br, iters = mres[i].split()
+            exp = pyops(a, b)
+            branch = "identity" if isame else II_BRANCH.get(int(br), br)
+            if branch == "digit-loop":
+                branch += "/%s-iterations" % ("all" if int(iters) == max(1, (abs(a).bit_length() + SH - 1) // SH) else iters)
+            stratum = "intint/%s/%s/%s" % (cfg, branch, fam.split("/")[0])
+            inp0 = {"part": "intint", "config": cfg, "a": str(a), "b": str(b), "same_object": bool(isame), "family": fam}
+            if same and not isame:
+                ctx.corr_break("intint:identity", inp0, "distinct objects", "one object")
+            ctx.count(stratum, 6 * nfun, distinct_sigs=[(cfg, a, b, isame, oi) for oi in range(6)])
+            for j, (fname, _, oi) in enumerate(pair_fns):
+                g = got[j]
+                if g == mrow[oi] and g == exp[oi]:
+                    continue
+                inp = dict(inp0, func=fname, source=_ii_fn_source(src, fname), op=II_OPS[oi][1])
+                if g != mrow[oi]:
+                    ctx.corr_break("intint:" + fname, inp, g, mrow[oi])
+                if g != exp[oi]:
+                    ctx.fail("pyobject_compare_int_int_wrong_result", inp, g, exp[oi],
+                             note="model=%s branch=%s; CPython: %s %s %s is %s" % (mrow[oi], branch, a, II_OPS[oi][1], b, exp[oi] == "1"))
+        for i, (a, b, c, fam) in enumerate(triples):
+            sab, sbc, sac = res["triples"][i][0]
+            got = res["triples"][i][1]
+            rab, rbc, rac = (mres[link[k]].split()[0] for k in ((a, b, sab), (b, c, sbc), (a, c, sac)))
+            inp0 = {"part": "intint", "config": cfg, "a": str(a), "b": str(b), "c": str(c), "family": fam}
+            ctx.count("intint/%s/chain-and-membership/%s" % (cfg, fam), len(tri_fns),
+                      distinct_sigs=[(cfg, a, b, c, sab, sbc, sac)])
+            for j, (fname, kind, info) in enumerate(tri_fns):
+                if kind == "chain":
+                    o1, o2 = info
+                    mod = "1" if (rab[o1] == "1" and rbc[o2] == "1") else ("U" if "U" in (rab[o1], rbc[o2]) else "0")
+                    ea, eb = pyops(a, b), pyops(b, c)
+                    exp = "1" if (ea[o1] == "1" and eb[o2] == "1") else "0"
+                else:
+                    hit = rab[2] == "1" or rac[2] == "1"
+                    mod = "U" if "U" in (rab[2], rac[2]) else ("1" if hit != info else "0")
+                    exp = "1" if ((a in (b, c)) != info) else "0"
+                g = got[j]
+                if g == mod and g == exp:
+                    continue
+                inp = dict(inp0, func=fname, source=_ii_fn_source(src, fname))
+                if g != mod:
+                    ctx.corr_break("intint:" + fname, inp, g, mod)
+                if g != exp:
+                    ctx.fail("pyobject_compare_int_int_wrong_result", inp, g, exp, note="model=%s" % mod)
+        if cfg == "312" and res["mem"]:
+            bad = 0
+            for k, s in enumerate(vals):
+                tag, digs = res["mem"][k]
+                want = "%d %s" % (tag, ",".join(map(str, digs)) or "-")
+                if mres[m0 + k] != want and bad < 5:
+                    bad += 1
+                    ctx.corr_break("intint:memory-representation", {"part": "intint", "value": s}, want, mres[m0 + k])
+            ctx.count("intint/312/representation(lv_tag,ob_digit)=of_Z", len(vals), distinct_sigs=[("mem", s) for s in vals])
+        for (fn, a, b), (g, e) in zip(II_EXTRA, res["extra"]):
+            inp = {"part": "intint", "config": cfg, "func": fn, "a": repr(a), "b": repr(b)}
+            ctx.case("intint/%s/non-exact-operands(differential)" % cfg, inp, sig=(cfg, fn, repr(a), repr(b)))
+            if g != e:
+                ctx.fail("pyobject_compare_nonexact_wrong_result", inp, g, e)
+    ctx.extra["intint_pairs"] = len(pairs)
+    ctx.extra["intint_triples"] = len(triples)
+
+
+def _ii_fn_source(src, fname):
+    m = re.search(r"^def %s\(.*?(?=^def |\Z)" % re.escape(fname), src, re.S | re.M)
+    return m.group(0) if m else fname
+
+
+# ------------------------------------------------------------------------------------------------
 DUP_SRC = '''
 def t_dup(char b):
     if b in b"ab":
@@ -1337,12 +1679,15 @@ def run(ctx):
              dict(name="c19_sw", source=sw_cy, workdir=ctx.workdir, cflags=O0),
              dict(name="c19_ca", source=ca_cy, workdir=ctx.workdir, cflags=O0),
              dict(name="c19_diff", source=head + DIFF_SRC, workdir=ctx.workdir, cflags=O0),
+             dict(name="c19_ii", source=ii_source(), workdir=ctx.workdir, cflags=O0),
+             dict(name="c19_iin", source=ii_source(), workdir=ctx.workdir, cflags=O0,
+                  macros=["CYTHON_USE_PYLONG_INTERNALS=0"]),
              dict(name="c19_dup", source=head + DUP_SRC, workdir=ctx.workdir, cflags=O0)]
     import concurrent.futures as cf
     with cf.ThreadPoolExecutor(max_workers=2) as ex:
         fut_tree = ex.submit(cybuild.run_script, TREEWORKER, ctx.workdir,
                              {"sources": {"c19_in": in_src, "c19_sw": sw_cy}, "dir": ctx.workdir}, 900, None, None, "treeworker.py")
-        built = cybuild.build_many(specs, jobs=4)
+        built = cybuild.build_many(specs, jobs=6)
         tr = fut_tree.result()
     dup_err = built[-1][1]
     built, specs = built[:-1], specs[:-1]
@@ -1382,6 +1727,9 @@ def run(ctx):
     cy, py = run_both(ctx, [["c19_ca", ca_cy]], [["c19_ca", ca_py]], cases, "ca")
     check_cascade(ctx, model, ca_cases, {c.name: r for c, r in zip(ca_cases, cy)},
                   {c.name: r for c, r in zip(ca_cases, py)})
+
+    # ---- part 4: the int-int branch of PyObjectCompare, internals on (cfg 312) and off (noint)
+    check_intint(ctx, ctx.model("cmpint"), quick, {"312": "c19_ii", "noint": "c19_iin"})
 
     # ---- differential probes of the object comparison helpers
     dc = diff_cases()
